@@ -207,7 +207,8 @@ func (v *Version) String() string {
 func (v *Version) Compare(other *Version) int {
 	// Handle invalid versions (no numeric components) - use string comparison
 	if v.numeric == nil || other.numeric == nil {
-		return strings.Compare(v.original, other.original)
+		// surrounding whitespace is not part of the version
+		return strings.Compare(strings.TrimSpace(v.original), strings.TrimSpace(other.original))
 	}
 
 	// 1. Compare numeric components (leading zeros are ignored - use actual numeric values)
